@@ -37,7 +37,7 @@ type poolprogScn struct{}
 func (poolprogScn) Name() string     { return "poolprog" }
 func (poolprogScn) Property() string { return "C18" }
 
-const numProgKinds = 11
+const numProgKinds = 12
 
 func (poolprogScn) Generate(g *simrt.Rng, tier string) any {
 	p := &PoolProgPlan{Env: genEnv(g, tier)}
@@ -266,6 +266,32 @@ func runProg(nonce uint32, pr PoolProg, yield func()) (out []byte) {
 			return []byte("no error from a misused writer")
 		}
 		return []byte("error: " + err.Error())
+	case 11: // a caller-owned writer fails midway and is then released by its owner (as a deferred Free would)
+		w := spec.NewWriter()
+		w.Reset(buf)
+		yield()
+		var err error
+		if pr.N%2 == 0 {
+			v := w.Value()
+			v.Int64(int64(pr.Arg))
+			yield()
+			err = v.Int64(int64(pr.Arg) + 1) // a second root value
+		} else {
+			m := w.Message()
+			m1 := m.Field(1).Message()
+			m1.Field(1).Bytes(data)
+			yield()
+			_, err = m.Build() // the nested message is still open
+		}
+		yield()
+		w.Free()
+		if pr.N%3 == 0 {
+			w.Free() // released twice by a careless owner: must stay harmless
+		}
+		if err == nil {
+			return []byte("no error from a misused writer")
+		}
+		return []byte("error: " + err.Error())
 	}
 	return []byte("unknown program")
 }
@@ -294,7 +320,11 @@ func (poolprogScn) Run(t *testing.T, seed uint64, plan any, o RunOpts) *Report {
 		expected := make([][][]byte, len(p.Tasks))
 		for i, progs := range p.Tasks {
 			for _, pr := range progs {
-				expected[i] = append(expected[i], runProg(p.Nonce, pr, func() {}))
+				exp := runProg(p.Nonce, pr, func() {})
+				if bytes.HasPrefix(exp, []byte("panic: ")) {
+					simrt.Fail("C18-panic", "task %d program (kind %d, n %d) run alone with fresh objects panics inside the library: %s", i, pr.Kind, pr.N, trunc(string(exp), 300))
+				}
+				expected[i] = append(expected[i], exp)
 			}
 		}
 		simpool.Policy = p.Pool.Policy
